@@ -6,7 +6,7 @@
     rest-of-cell codecs only in the last position of their cell, signed and big
     integers at least one bit wide. *)
 From Coq Require Import List NArith Arith Bool String.
-From Tongo Require Import Lib.Bits Model.TlbCore Generated.TlbTypes.
+From Tongo Require Import Lib.Bits Model.TlbCore Model.TlbExt Generated.TlbTypes.
 Import ListNotations.
 Local Open Scope string_scope.
 
@@ -21,6 +21,11 @@ Definition claimed :=
 Theorem C03_gen_all_wf : forallb (fun p => wf_ty [] (snd p)) claimed = true.
 Proof. vm_compute. reflexivity. Qed.
 
+(* the types described in the extension layer (snake data, length-prefixed bytes):
+   premise of C03_ext_generic_roundtrip *)
+Theorem C03_gen_all_xwf : forallb (fun p => xwf_ty (snd p)) tlb_xtypes = true.
+Proof. vm_compute. reflexivity. Qed.
+
 (* the exceptions really are what they are said to be: not first-match safe *)
 Theorem C03_gen_ctx_dependent_not_wf :
   forallb (fun p => negb (wf_ty [] (snd p)))
@@ -33,7 +38,7 @@ Proof. split; reflexivity. Qed.
 
 (* every registered type is accounted for: claimed, or listed with a reason *)
 Theorem C03_gen_partition :
-  (List.length tlb_types + List.length tlb_opaque + List.length tlb_decode_only + List.length tlb_not_cell)%nat
+  (List.length tlb_types + List.length tlb_xtypes + List.length tlb_opaque + List.length tlb_decode_only + List.length tlb_not_cell)%nat
   = tlb_source_type_count.
 Proof. vm_compute. reflexivity. Qed.
 
@@ -61,4 +66,5 @@ Proof. vm_compute. reflexivity. Qed.
 Eval vm_compute in ("opaque (hand-written codec, no model)", map fst tlb_opaque).
 Eval vm_compute in ("decode-side only / asymmetric (hand-written decoder, reflection encoder)", map fst tlb_decode_only).
 Eval vm_compute in ("context-dependent unions", ctx_dependent).
+Eval vm_compute in ("claimed through the extension layer", map fst tlb_xtypes).
 Eval vm_compute in ("claimed, but with union constructors that have no model (empty union in the descriptor)", map fst tlb_partial).
